@@ -362,6 +362,20 @@ let dispatch (fn : string) (args : sx list) : sx =
       | L [fnm; node; hdr; parts] -> { de_func_name = to_str fnm; de_node = to_str node; de_header = to_lines hdr; de_parts = to_list to_part parts }
       | _ -> raise (Bad "dump example") in
     of_str (dump_module (to_list to_de es))
+  (* StaticCollect *)
+  | "visit_module", [moddoc; body] ->
+    let rec to_node = function
+      | L [A k; nm; hid; doc; ch] ->
+        let k = (match k with "func" -> NK_Func | "class" -> NK_Class | "ifmain" -> NK_IfMain | "other" -> NK_Other | _ -> raise (Bad "nkind")) in
+        SNode (k, to_str nm, to_bool hid, to_opt to_nat doc, to_list to_node ch)
+      | _ -> raise (Bad "snode") in
+    of_list (fun (k, v) -> L [of_str k; of_opt of_nat v]) (visit_module (to_opt to_nat moddoc) (to_list to_node body))
+  | "package_modpaths", [d; tree] ->
+    let rec to_tree = function
+      | L [A "file"; n] -> DFile (to_str n)
+      | L [A "dir"; n; ch] -> DDir (to_str n, to_list to_tree ch)
+      | _ -> raise (Bad "dtree") in
+    of_list of_lines (package_modpaths (to_lines d) (to_tree tree))
   | _ -> raise (Bad ("unknown function " ^ fn))
 
 
